@@ -55,6 +55,20 @@ type pcC struct{}
 //go:noinline
 func (pcC) m(n int) []uintptr { return pcA(n - 1) }
 
+//go:noinline
+func verifLongName_aaaaaaaaaaaaaaaaaaaaaaaaaaaaaaaaaaaaaaaaaaaaaaaaaaaaaaaaaaaaaaaaaaaaaaaaaaaaaaaaaaaaaaaaaaaaaaaaaaaaaaaaaaaaaaaaaaaaaaaaaaaaaaaaaaaaaaaaaaaaaaaaaaaaaaaaaaaaaaaaaaaaaaaaaaaaaaaaaaaaaaaaaaaaaaaaaaaaaaaaaaaaaaaaaaaaaaaaaaaaaaaaaaaaaaaaaaaaaaaaaaaaaaaaaaaaaaaaaaaaaaaaaaaaaaaaaaaaaaaaaaaaaaaaaaaaaaaaaaaa(n int) []uintptr {
+	if n > 0 {
+		r := verifLongName_aaaaaaaaaaaaaaaaaaaaaaaaaaaaaaaaaaaaaaaaaaaaaaaaaaaaaaaaaaaaaaaaaaaaaaaaaaaaaaaaaaaaaaaaaaaaaaaaaaaaaaaaaaaaaaaaaaaaaaaaaaaaaaaaaaaaaaaaaaaaaaaaaaaaaaaaaaaaaaaaaaaaaaaaaaaaaaaaaaaaaaaaaaaaaaaaaaaaaaaaaaaaaaaaaaaaaaaaaaaaaaaaaaaaaaaaaaaaaaaaaaaaaaaaaaaaaaaaaaaaaaaaaaaaaaaaaaaaaaaaaaaaaaaaaaaaaaaaaaaa(n - 1)
+		return r
+	}
+	p := make([]uintptr, 64)
+	return p[:runtime.Callers(1, p)]
+}
+
+// longPCs are the PCs of a 20-deep stack of a function with a ~320 byte name:
+// 16 of its frames exceed the 4096-byte name limit.
+var longPCs = verifLongName_aaaaaaaaaaaaaaaaaaaaaaaaaaaaaaaaaaaaaaaaaaaaaaaaaaaaaaaaaaaaaaaaaaaaaaaaaaaaaaaaaaaaaaaaaaaaaaaaaaaaaaaaaaaaaaaaaaaaaaaaaaaaaaaaaaaaaaaaaaaaaaaaaaaaaaaaaaaaaaaaaaaaaaaaaaaaaaaaaaaaaaaaaaaaaaaaaaaaaaaaaaaaaaaaaaaaaaaaaaaaaaaaaaaaaaaaaaaaaaaaaaaaaaaaaaaaaaaaaaaaaaaaaaaaaaaaaaaaaaaaaaaaaaaaaaaaaaaaaaaa(20)
+
 var pcPool = func() []uintptr {
 	var pool []uintptr
 	for d := 0; d < 12; d++ {
@@ -153,6 +167,10 @@ func genReport(r *verifrt.Rand, canary string) (*synReport, []uint64, bool) {
 	for gi := 0; gi < ng; gi++ {
 		g := synGoroutine{ID: 1 + r.Intn(90), Status: verifrt.Pick(r, []string{"running", "running", "select", "chan receive", "sleep", "runnable", "running, locked to thread"})}
 		nf := verifrt.Pick(r, []int{0, 1, 2, 3, 5, 16, 17, 40, 200})
+		longStack := r.Intn(10) == 0
+		if longStack {
+			nf = 12 + r.Intn(9)
+		}
 		prevSym := ""
 		for k := 0; k < nf; k++ {
 			f := synFrame{Symbol: symPool[r.Intn(len(symPool))], Args: verifrt.Pick(r, []string{"", "0x1, 0x2", "{0x" + canary + ", 0x5}", "(0x1)", "...", canary}),
@@ -161,12 +179,19 @@ func genReport(r *verifrt.Rand, canary string) (*synReport, []uint64, bool) {
 				f.Symbol = "runtime.sigpanic"
 			}
 			real := pcPool[r.Intn(len(pcPool))]
-			switch r.Intn(12) {
-			case 0:
+			if longStack && k < len(longPCs) {
+				real = longPCs[k]
+				f.HasPC = true
+				f.Symbol = "main.f"
+			}
+			switch pick := r.Intn(12); {
+			case longStack:
+				f.PC = uint64(real) + delta
+			case pick == 0:
 				f.PC = delta // relocates to 0
-			case 1:
+			case pick == 1:
 				f.PC = ^uint64(0)
-			case 2:
+			case pick == 2:
 				f.PC = 1
 			default:
 				f.PC = uint64(real) + delta
@@ -285,6 +310,9 @@ func c14Synthetic(t *testing.T) {
 			if len(pcs) > 16 {
 				res.Hit("more-than-16-frames")
 			}
+			if strings.HasSuffix(name, "\ntruncated\n") {
+				res.Hit("truncated-name")
+			}
 			if name == "crash/no-running-goroutine" {
 				res.Hit("no-running-goroutine")
 			}
@@ -336,7 +364,15 @@ func c14Synthetic(t *testing.T) {
 				}
 			case 4:
 				kind = "extra-sentinel-later"
-				vr.ExtraSent = []string{fmt.Sprintf("sentinel %x", sentinel()+0x55550000), "sentinel zzz"}
+				vr.ExtraSent = []string{fmt.Sprintf("sentinel %x", sentinel()+0x55550000)}
+				if rnd.Intn(3) == 0 {
+					vr.ExtraSent = append(vr.ExtraSent, "sentinel zzz")
+				}
+				if rnd.Intn(3) == 0 {
+					// inside the message text rather than on the next line
+					vr.ExtraSent = nil
+					vr.Mid = append([]string{"panic: user text follows", fmt.Sprintf("sentinel %x", sentinel()+0x1230000)}, rep.Mid...)
+				}
 			case 5:
 				kind = "pre-text"
 				vr.Pre = []string{"unrelated output " + canary + "Z", "", "more"}
@@ -362,7 +398,7 @@ func c14Synthetic(t *testing.T) {
 			res.Sample(map[string]any{"case": i, "report_head": fmt.Sprintf("%.400s", text), "name": trunc(name), "err": fmt.Sprint(err)})
 		}
 	}
-	res.Require("named", "error", "no-running-goroutine", "more-than-16-frames", "variant:message", "variant:extra-sentinel-later", "variant:other-symbols")
+	res.Require("named", "error", "no-running-goroutine", "more-than-16-frames", "truncated-name", "variant:message", "variant:extra-sentinel-later", "variant:other-symbols")
 	if err := res.Write(); err != nil {
 		t.Fatal(err)
 	}
